@@ -261,6 +261,58 @@ def check(ctx):
     ctx.clause = "5-message-length"
     _message_length(ctx, repo, msg)
 
+    # ---- 5b accessor agreement (what the bookkeeping adds is what dump() emits) ------------------------------
+    ctx.clause = "5b-accessor-agreement"
+    acc = [(avp, "get_length", ["int.from_bytes(self.length, byteorder='big')"]),
+           (avp, "__len__", ["self.get_length()"]),
+           (hdr, "get_length", ["int.from_bytes(self.length, byteorder='big')"]),
+           (msg, "get_length", ["int.from_bytes(self.header.length, byteorder='big')", "self.header.get_length()"])]
+    for ci, name, wants in acc:
+        fn = ctx.need(ci.methods.get(name), f"{ci.name}.{name}")
+        rets = [ast.unparse(n.value) for n in walk_no_nested(fn) if isinstance(n, ast.Return) and n.value is not None]
+        ctx.decide(len(rets) == 1 and rets[0] in wants, "R-SIB/accessor", f"{ci.qual}.{name}", ci.where(fn),
+                   f"{name} returns {rets[0] if rets else None}",
+                   f"{ci.name}.{name} returns {rets}: the length used by the bookkeeping is not the big-endian value of the length field",
+                   key=name)
+    gp = ctx.need(avp.methods.get("get_padding_length"), "DiameterAVP.get_padding_length")
+    okp = False
+    for iff in [x for x in walk_no_nested(gp) if isinstance(x, ast.If)]:
+        if ast.unparse(iff.test) in ("self.padding", "self.padding is not None"):
+            rr = [ast.unparse(s.value) for s in iff.body if isinstance(s, ast.Return) and s.value is not None]
+            okp = rr == ["len(self.padding)"]
+    tail = [ast.unparse(n.value) for n in gp.body if isinstance(n, ast.Return) and n.value is not None]
+    ctx.decide(okp and tail in (["None"], ["0"]), "R-SIB/accessor", f"{avp.qual}.get_padding_length", avp.where(gp),
+               "get_padding_length is len(padding) when there is padding, else nothing",
+               "get_padding_length does not return len(self.padding) (None/0 without padding): Message Length bookkeeping and dump() "
+               "disagree on the padding", key="get_padding_length")
+
+    # ---- 5c flag bits -----------------------------------------------------------------------------------------------
+    ctx.clause = "5c-flag-bits"
+    for ci, table in ((avp, {"flag_vendor_id_bit": 0x80, "flag_mandatory_bit": 0x40, "flag_protected_bit": 0x20}),
+                      (hdr, {"flag_request_bit": 0x80, "flag_proxiable_bit": 0x40, "flag_error_bit": 0x20, "flag_retransmitted": 0x10})):
+        for name, val in table.items():
+            v = repo.fold_class_attr(ci, name)
+            ctx.decide(v == bytes([val]), "R-TABLE/flag-bits", f"{ci.qual}.{name}", ci.where(), f"{name} == 0x{val:02x}",
+                       f"{name} folds to {v!r}; RFC 6733 says 0x{val:02x}", key=name)
+    fam = {avp: {"vendor_id": "flag_vendor_id_bit", "mandatory": "flag_mandatory_bit", "protected": "flag_protected_bit"},
+           hdr: {"request": "flag_request_bit", "proxiable": "flag_proxiable_bit", "error": "flag_error_bit", "retransmitted": "flag_retransmitted"}}
+    for ci, d in fam.items():
+        for stem_, const in d.items():
+            for mname in (f"set_{stem_}_bit", f"is_{stem_}"):
+                fn = ci.methods.get(mname)
+                if fn is None:
+                    ctx.undecided("R-SIB/flag-accessor", f"{ci.qual}.{mname}", ci.where(), "accessor not found", key=mname)
+                    continue
+                used = {n.attr for n in ast.walk(fn) if isinstance(n, ast.Attribute) and n.attr.startswith("flag_")}
+                ctx.decide(used == {const}, "R-SIB/flag-accessor", f"{ci.qual}.{mname}", ci.where(fn), f"{mname} uses {const}",
+                           f"{mname} uses {sorted(used)} instead of {const}: the accessor reads/changes another flag bit", key=mname)
+            sf = ci.methods.get(f"set_{stem_}_bit")
+            if sf is not None:
+                ops = [type(n.op).__name__ for n in ast.walk(sf) if isinstance(n, ast.BinOp) and isinstance(n.op, (ast.BitOr, ast.BitXor, ast.BitAnd))]
+                ctx.decide(ops.count("BitOr") == 1 and (ops.count("BitXor") + ops.count("BitAnd")) == 1, "R-SIB/flag-accessor",
+                           f"{ci.qual}.set_{stem_}_bit", ci.where(sf), "sets with OR, clears with XOR/AND",
+                           f"set_{stem_}_bit combines the flags with {ops}", key=f"ops:{stem_}", nontrivial=False)
+
     # ---- 6 grouped --------------------------------------------------------------------------------------
     ctx.clause = "6-grouped-concatenation"
     _grouped(ctx, repo)
